@@ -120,6 +120,7 @@ class Checker:
     # ---- batch-level
     def on_epoch(self, h, X_full, A_full):
         self.epochs_in_op += 1
+        self.epoch_ambiguous = False
         self.epoch_ids = []
         self.batches_in_epoch = 0
         res = self.res
@@ -142,10 +143,17 @@ class Checker:
     def on_batch(self, h, X_full, A_full, Xb, Ab, ids):
         res = self.res
         self.batches_in_epoch += 1
-        self.epoch_ids.extend(ids)
         b = len(ids)
-        if any(i < 0 for i in ids):
+        if not any(i < 0 for i in ids):
+            self.epoch_ids.extend(ids)
+        if any(i == -1 for i in ids):
             res.violate("C10:partition:foreign_row", {"ids": ids})
+            return
+        if any(i < -1 for i in ids):
+            # identical rows and a batch that is not a slice of the permutation: who is who cannot be decided by value
+            res.probe("batches_with_undecidable_duplicates")
+            self.epoch_ids.extend(-2 - i if i < -1 else i for i in ids)
+            self.epoch_ambiguous = True
             return
         eff = self.n if (self.bs is None or self.categorical) else self.bs
         if b > eff:
@@ -175,6 +183,8 @@ class Checker:
     def on_epoch_end(self, h):
         res = self.res
         ids = self.epoch_ids
+        if getattr(self, "epoch_ambiguous", False):
+            ids = list(range(self.n)) if len(ids) == self.n else ids    # only the count is decidable
         if sorted(ids) != list(range(self.n)):
             seen = set(ids)
             if len(seen) != len(ids):
@@ -196,7 +206,7 @@ class Checker:
     def on_compute_grads(self):
         model = self.h.model
         idx = getattr(model._batchify, "indices", None)
-        if idx is None:
+        if idx is None or any(i < 0 for i in self.h.cur_ids):
             return
         if list(idx) != list(self.h.cur_ids):
             self.res.violate("C10:indices", {"recorded": [int(i) for i in idx], "true": self.h.cur_ids})
@@ -243,7 +253,8 @@ class Checker:
             res.violate("C10:val_block:rows", {"covered": j, "n": n})
         acc = acc / n
         got = np.asarray(out[0]).item()
-        if not (acc == got or (np.isnan(acc) and np.isnan(got))):
+        # the weighted mean may legitimately be accumulated in another order: compare to rounding
+        if not (abs(acc - got) <= 1e-12 * max(1.0, abs(acc)) or (np.isnan(acc) and np.isnan(got))):
             res.violate("C10:val_block:mean", {"got": got, "want": float(acc)})
         res.probe("val_scores_checked")
 
